@@ -197,6 +197,8 @@ def run_check(prop, tier, seed, t0, a):
                 undecided.append(f'{ident}: failed ({r["tag"]}, in_lock={in_lock}) without real failing input: {r["detail"]}')
         if out.get('domain_error'):
             failures.append(f'{key}: bounded domain crashed: {out["domain_error"]}')
+        if out.get('domain_note'):
+            print(f'NOTE: no executable contract for {key} in this run: {out["domain_note"]}')
         dom = out.get('domain')
         if dom:
             domain_evals += dom['evaluated']
